@@ -21,6 +21,8 @@ type ReadOnlyFS struct {
 	sourceFS  hackpadfs.FS
 	cacheFS   writableFS
 	cacheInfo sync.Map
+	// cacheIncomplete holds names whose copy into cacheFS failed and could not be removed; their cached bytes must not be served
+	cacheIncomplete sync.Map
 
 	pathlock pathlock.Mutex
 	options  ReadOnlyOptions
@@ -56,7 +58,7 @@ func (fs *ReadOnlyFS) Open(name string) (hackpadfs.File, error) {
 
 	fs.pathlock.Lock(name)
 	defer fs.pathlock.Unlock(name)
-	{
+	if _, incomplete := fs.cacheIncomplete.Load(name); !incomplete {
 		// if file is in cache, return it. continue otherwise
 		f, err := fs.cacheFS.Open(name)
 		if err == nil {
@@ -78,8 +80,13 @@ func (fs *ReadOnlyFS) Open(name string) (hackpadfs.File, error) {
 	err = fs.copyFile(name, f, info)
 	if err != nil {
 		_ = f.Close()
+		// never serve the partial copy: remove it, or remember to copy it again
+		if removeErr := hackpadfs.Remove(fs.cacheFS, name); removeErr != nil && !errors.Is(removeErr, hackpadfs.ErrNotExist) {
+			fs.cacheIncomplete.Store(name, true)
+		}
 		return nil, err
 	}
+	fs.cacheIncomplete.Delete(name)
 	if _, seekErr := hackpadfs.SeekFile(f, 0, io.SeekStart); seekErr != nil {
 		// attempt to seek to first byte. if unsuccessful, re-open file from the cache
 		_ = f.Close()
